@@ -1,18 +1,35 @@
 /-
   C21 — Every call finishes in bounded steps once it runs without interference.
 
-  Proved here: **termination** of every program of the model (every API call is one) when run
-  alone from *any* thread state reachable in any interleaving — including "inside a
-  compare-exchange loop holding a stale value" — and from any memory contents; no step of the
-  semantics consults another thread's state (`Th.step : Th α → Mem → …`), so no call waits for
-  another thread: the only wait in the source, `spin_wait`, is a loop bounded by `RETRIES`.
+  Proved here:
+  * **termination** of every program of the model (every API call is one) when run alone from
+    *any* thread state reachable in any interleaving — including "inside a compare-exchange loop
+    holding a stale value" — and from any memory contents (`solo_terminates`); no step of the
+    semantics consults another thread's state (`Th.step : Th α → Mem → …`), so no call waits for
+    another thread: the only wait in the source, `spin_wait`, is a loop bounded by `RETRIES`;
+  * an **explicit uniform bound**: `Within n p` says that every path of the program tree `p`
+    performs at most `n` atomic accesses (a `try_update`/`update` counts 2); `get_within`,
+    `put_within`, `drain_within`, `change_tree_within`: every public call lies within an explicit
+    number `getB c`, `putB c`, `drainB c`, `changeB c` computed from the configuration alone
+    (geometry, number of trees, number of slots, retry constant) — for every argument, every
+    value any load may return, every branch (all loops of bitfield.rs, lower.rs, trees.rs,
+    local.rs, llfree.rs on these paths: row toggles with roll-back, chunk search, row search,
+    table-entry search, compare-exchange ranges with undo, bounded spin wait, tree search with
+    its candidate buffer, slot and class loops, sync-and-retry);
+  * `bound_kept_under_interference`: the bound is kept by every step of the thread whatever the
+    other threads wrote in between (a failed compare-exchange inside `try_update` does not lower
+    it — interference can delay, never block);
+  * `frozen_completion` / `api_frozen_completion`: after ANY schedule of ANY number of threads
+    each running a public call, if all threads but one are frozen, that thread finishes within
+    the bound of its call — from every intermediate state of every interleaving.
 
-  PARTIAL: the *uniform explicit bound* `B(geometry, trees, slots)` on the number of accesses is
-  not yet a theorem (`solo_step_bound` below is stated for the primitive retry loop only); the
-  bound is measured by the freeze experiments of the trace correspondence (harness `solo_bound`).
+  The bounds are generous (products of loop lengths), not tight; the freeze experiments of the
+  trace correspondence measure the actual counts on the real threads (harness `solo_bound`) and
+  compare every access with the model.
 -/
 import LLFreeV.Proofs.Solo
 import LLFreeV.Model.Upper
+import LLFreeV.Proofs.BoundConc
 namespace LLFree.C21
 open LLFree
 
@@ -45,5 +62,74 @@ theorem solo_step_bound_upd {α : Type} (k : Kind) (i : Nat) (f : k.Val → Upd 
       | skip => exact ⟨1, by omega, by simp [soloSteps, Th.step, hg, he, Th.afterUpd, hf]⟩
       | panic s => exact ⟨1, by omega, by simp [soloSteps, Th.step, hg, he, Th.afterUpd, hf]⟩
       | set v => exact ⟨2, by omega, by simp [soloSteps, Th.step, hg, he, Th.afterUpd, hf]⟩
+
+/-! ### explicit bounds -/
+
+/-- `get` (with or without target frame) performs at most `getB c` accesses -/
+theorem get_within (c : Cfg) (frame : Option Nat) (r : Request) : Within (getB c) (get c frame r) :=
+  LLFree.get_within c frame r
+
+/-- `put` performs at most `putB c` accesses (including the bounded spin wait for a concurrent split) -/
+theorem put_within (c : Cfg) (frame : Nat) (r : Request) : Within (putB c) (put c frame r) :=
+  LLFree.put_within c frame r
+
+/-- `drain` performs at most `drainB c` accesses -/
+theorem drain_within (c : Cfg) : Within (drainB c) (drain c) := LLFree.drain_within c
+
+/-- `change_tree` performs at most `changeB c` accesses -/
+theorem change_tree_within (c : Cfg) (mid mcls : Option Nat) (mfree : Nat) (ccls : Option Nat) (op : Option Tree.Op) :
+    Within (changeB c) (changeTree c mid mcls mfree ccls op) := changeTree_within c mid mcls mfree ccls op
+
+/-- a program within `n` finishes within `n` accesses when it runs alone, whatever the memory holds -/
+theorem within_solo {α : Type} {n : Nat} {p : Prog α} (h : Within n p) (m : Mem) :
+    ∃ k, k ≤ n ∧ (soloSteps k (.at p) m).1.finished = true := Within.solo h m
+
+/-- interference never raises the bound of a thread inside a call: whatever the memory contains
+    when the thread takes its next step, the successor state satisfies the same bound -/
+theorem bound_kept_under_interference {α : Type} {n : Nat} {t t' : Th α} {m m' : Mem} {a : Access}
+    (h : Th.Within n t) (hs : t.step m = .step t' m' a) : Th.Within n t' := Th.Within.step h hs
+
+/-- **from every state of every interleaving**: threads start programs `p k` within `B k`; after
+    any schedule, thread `k` run alone (all others frozen) finishes within `B k` accesses -/
+theorem frozen_completion {α : Type} (p : Nat → Prog α) (B : Nat → Nat) (hB : ∀ k, Within (B k) (p k))
+    (sched : List Nat) (m : Mem) (k : Nat) :
+    ∃ n, n ≤ B k ∧
+      (soloSteps n ((concRun sched (m, fun j => Th.at (p j))).2 k) (concRun sched (m, fun j => Th.at (p j))).1).1.finished = true :=
+  LLFree.frozen_completion p B hB sched m k
+
+/-- a public call -/
+inductive ApiCall where
+  | get (frame : Option Nat) (r : Request)
+  | put (frame : Nat) (r : Request)
+  | drain
+  | change (mid mcls : Option Nat) (mfree : Nat) (ccls : Option Nat) (op : Option Tree.Op)
+
+/-- the call as a program (results dropped) -/
+def ApiCall.prog (c : Cfg) : ApiCall → Prog Unit
+  | .get frame r => do let _ ← LLFree.get c frame r; pure ()
+  | .put frame r => do let _ ← LLFree.put c frame r; pure ()
+  | .drain => LLFree.drain c
+  | .change mid mcls mfree ccls op => do let _ ← changeTree c mid mcls mfree ccls op; pure ()
+
+
+theorem api_within (c : Cfg) (call : ApiCall) : Within (apiB c) (call.prog c) := by
+  cases call with
+  | get frame r => exact Within.bind _ (LLFree.get_within c frame r) (fun _ => Within.pure _ _) (by unfold apiB; omega)
+  | put frame r => exact Within.bind _ (LLFree.put_within c frame r) (fun _ => Within.pure _ _) (by unfold apiB; omega)
+  | drain => exact (LLFree.drain_within c).mono (by unfold apiB; omega)
+  | change mid mcls mfree ccls op =>
+    exact Within.bind _ (changeTree_within c mid mcls mfree ccls op) (fun _ => Within.pure _ _) (by unfold apiB; omega)
+
+/-- **C21 for the public interface**: any number of threads each inside a public call, any
+    schedule, any memory: freeze all but thread `k` and it completes within `apiB c` accesses. -/
+theorem api_frozen_completion (c : Cfg) (calls : Nat → ApiCall) (sched : List Nat) (m : Mem) (k : Nat) :
+    ∃ n, n ≤ apiB c ∧
+      (soloSteps n ((concRun sched (m, fun j => Th.at ((calls j).prog c))).2 k)
+        (concRun sched (m, fun j => Th.at ((calls j).prog c))).1).1.finished = true :=
+  LLFree.frozen_completion (fun j => (calls j).prog c) (fun _ => apiB c) (fun j => api_within c (calls j)) sched m k
+
+/-- the bound is a concrete number: the default geometry with 4 trees and 6 slots -/
+example : apiB { geom := ⟨9, 4⟩, frames := 8192, classes := [(0, 2), (1, 2), (2, 2)], dflt := 2,
+                 policy := fun _ _ _ => .invalid } = 37167 := by decide
 
 end LLFree.C21
